@@ -32,11 +32,20 @@ def disjoint(tabs):
 LOADERS = ["", "disk", "disk-shared", "skiplist", "map", "disk-shared"]
 
 
-def make_case(tabs, nkeys, super_=True, loader=""):
+def make_case(tabs, nkeys, super_=True, loader="", shape=0):
     faults = [{"kind": "compact-latest", "input": -1, "inpos": -1, "outpos": -1}, {"kind": "compact-skiptomb", "input": -1, "inpos": -1, "outpos": -1}]
     if disjoint(tabs):
         faults.append({"kind": "merge", "input": -1, "inpos": -1, "outpos": -1})
-    return {"tables": tabs, "probes": list(range(nkeys)), "ranges": [[lo, hi] for lo in range(nkeys) for hi in range(nkeys)], "faults": faults, "super": super_, "loader": loader}
+    c = {"tables": tabs, "probes": list(range(nkeys)), "ranges": [[lo, hi] for lo in range(nkeys) for hi in range(nkeys)], "faults": faults, "super": super_, "loader": loader}
+    # shapes of the stack (Merge.tla NestedOldestIsFlat): the oldest tables behind a stacked reader of their own; members in the legacy (version 0) layout
+    if shape % 5 == 1 and len(tabs) >= 2:
+        c["nest"] = "left"
+    elif shape % 5 == 2 and tabs:
+        c["v0"] = [shape // 5 % len(tabs)]
+    elif shape % 5 == 3 and len(tabs) >= 2:
+        c["nest"] = "left"
+        c["v0"] = [shape // 5 % len(tabs)]
+    return c
 
 
 def run(tier):
@@ -67,7 +76,7 @@ def run(tier):
             fam = fams[bi % len(fams)]
             keys = concrete.key_family(fam, nk, rng)
             vals = concrete.value_family(concrete.VALUE_FAMILIES[bi % 4], ["v1", "v2", "v3", "v4"], rng)
-            cases = [make_case(mergerun.tables_from_beh(b, nk), nk, loader=LOADERS[(bi + ci) % len(LOADERS)]) for ci, b in enumerate(behs[bi::nb])]
+            cases = [make_case(mergerun.tables_from_beh(b, nk), nk, loader=LOADERS[(bi + ci) % len(LOADERS)], shape=ci // 2 + bi) for ci, b in enumerate(behs[bi::nb])]
             if cases:
                 batches.append(("%s-k%d-%d" % (fam, nk, bi), keys, vals, cases))
     # seeded bigger lists
@@ -86,6 +95,10 @@ def run(tier):
         case = {"tables": tabs, "probes": pr, "ranges": [[rng.randrange(nk), rng.randrange(nk)] for _ in range(25)] + [[0, nk - 1], [0, 0]],
                 "faults": [{"kind": "compact-latest", "input": -1, "inpos": -1, "outpos": -1}, {"kind": "compact-skiptomb", "input": -1, "inpos": -1, "outpos": -1}],
                 "super": True, "loader": LOADERS[i % len(LOADERS)]}
+        if i % 3 == 1 and nt >= 2:
+            case["nest"] = "left"
+        if i % 4 == 2:
+            case["v0"] = sorted(set(rng.sample(range(nt), min(nt, 2))))
         batches.append(("big-%d" % i, keys, vals, [case]))
     total = mergerun.run_batches(o, binary, batches, "C08")
     o.evaluations = total
